@@ -739,3 +739,70 @@ Theorem C01_array_slices_from_payload l v mi mc w kw mw S k :
       mnth (so_table_bases so) i j = table_bases_of V nr nc (sel_len rc) (sel_len cc) rc cc i j.
 Proof. exact (ca_slice_counts_of_payload l v mi mc w kw mw S k). Qed.
 Print Assumptions C01_array_slices_from_payload.
+
+(* ------------------------------------------------------------------------------------ *)
+(* THE "order" LIST OF A TYPE DEFINITION (type.order of a categorical / enum dimension;
+   Model/TypedefOrder.v, Proofs/TypedefOrderProofs.v; dimension.py::Elements.from_typedef).  The
+   data runs along the axis in the order of the list's known codes while the catalogue
+   (type.categories / type.elements) keeps its own order.  [ordered_defs defs order] = the
+   catalogue re-arranged into PAYLOAD order; [elements_of] numbers the elements AFTER that
+   re-arrangement, so Element.index is the payload position (second seeding round, C01-3: numbering
+   them in catalogue order sends every count to another category, and a missing category's count
+   into a valid cell).  [dim_of_typedef] is the dimension the theorems above are stated about: its
+   missing flags are those of the re-arranged catalogue. *)
+From CC Require Import Model.TypedefOrder Proofs.TypedefOrderProofs.
+
+(* the offsets handed to Cube._valid_idxs are the valid payload positions of the model *)
+Theorem C01_typedef_valid_offsets k defs order :
+  element_idxs defs order = dvalid (dim_of_typedef k defs order).
+Proof. exact (element_idxs_dvalid k defs order). Qed.
+Print Assumptions C01_typedef_valid_offsets.
+
+(* Element.index is the payload position of the element's own definition *)
+Theorem C01_typedef_index_is_payload_position defs order e :
+  In e (elements_of defs order) ->
+  nth_error (ordered_defs defs order) (el_index e) = Some (el_def e).
+Proof. exact (element_index_is_payload_position defs order e). Qed.
+Print Assumptions C01_typedef_index_is_payload_position.
+
+(* each output row r shows the r-th valid element e, reads the payload position el_index e, the
+   definition sitting at that payload position is e's own, and e is not flagged missing *)
+Theorem C01_typedef_row_is_payload_position_of_shown_element k defs order r :
+  r < nvalid (dim_of_typedef k defs order) ->
+  exists e,
+    nth_error (valid_elements defs order) r = Some e
+    /\ nth r (dvalid (dim_of_typedef k defs order)) 0 = el_index e
+    /\ nth_error (ordered_defs defs order) (nth r (dvalid (dim_of_typedef k defs order)) 0)
+       = Some (el_def e)
+    /\ ed_missing (el_def e) = false.
+Proof. exact (row_reads_shown_element k defs order r). Qed.
+Print Assumptions C01_typedef_row_is_payload_position_of_shown_element.
+
+(* payload position p carries the p-th code of the list that the catalogue knows (unknown codes
+   have no slot), with the catalogue's definition of that code; nothing else is an element *)
+Theorem C01_typedef_payload_ids defs o :
+  map ed_id (ordered_defs defs (Some o)) = known_codes defs o
+  /\ (forall e, In e (ordered_defs defs (Some o)) -> In e defs).
+Proof. exact (conj (ordered_ids defs o) (ordered_defs_from_catalogue defs (Some o))). Qed.
+Print Assumptions C01_typedef_payload_ids.
+
+(* np.ix_ over dimensions given by their type definitions reads the elements' own indexes *)
+Theorem C01_typedef_take_valid (ts : list tdim) (T : tensor) idx :
+  take_valid (map dim_of ts) T idx = T (remap (map idxs_of ts) idx).
+Proof. exact (take_valid_typedefs ts T idx). Qed.
+Print Assumptions C01_typedef_take_valid.
+
+(* non-vacuity (the demo of the seeded change): catalogue Red 1, Green 2, No Data -1 (missing),
+   Blue 3; the data runs Blue, No Data, Red, Green.  Payload counts 16 30 9 7: the strand shows
+   Blue 16, Red 9, Green 7 (ids 3 1 2 at payload offsets 0 2 3); the 30 of No Data shows nowhere. *)
+Example C01_typedef_order_example :
+  let defs := [mkEdef 1 false; mkEdef 2 false; mkEdef (-1) true; mkEdef 3 false] in
+  let order := Some [3; 77; -1; 1; 2]%Z in
+  let d := dim_of_typedef DCat defs order in
+  dmiss d = [false; true; false; false] /\
+  element_ids defs order = [3; 1; 2]%Z /\
+  element_idxs defs order = [0; 2; 3] /\
+  map (fun r => take_valid [d] (of_flat [4] [Fin 16; Fin 30; Fin 9; Fin 7]) [r]) [0; 1; 2]
+    = [Fin 16; Fin 9; Fin 7] /\
+  element_ids defs None = [1; 2; 3]%Z /\ element_idxs defs None = [0; 1; 3].
+Proof. cbv zeta. repeat split; vm_compute; reflexivity. Qed.
